@@ -97,12 +97,12 @@ type Lockset struct {
 	Roots     []string
 	Unknown   int // accesses through values whose path could not be determined
 	Calls     int
-	LockPairs []string // problems found with lock pairing (C09.R3)
-	LockOps   int      // lock acquisitions visited on call paths from the roots
+	LockPairs []string   // problems found with lock pairing (C09.R3)
+	LockOps   int        // lock acquisitions visited on call paths from the roots
 	Order     []LockEdge // acquisition order: a lock acquired while another one is held
-	Reacquire []Access // a lock operation on a mutex that is already held on every path to it (self-deadlock)
-	CallSites []Access // every call executed on behalf of a root, with the lockset held at the call (Path = receiver / first argument)
-	Budget    bool     // analysis budget exhausted (result incomplete => undecided)
+	Reacquire []Access   // a lock operation on a mutex that is already held on every path to it (self-deadlock)
+	CallSites []Access   // every call executed on behalf of a root, with the lockset held at the call (Path = receiver / first argument)
+	Budget    bool       // analysis budget exhausted (result incomplete => undecided)
 }
 
 // LockEdge: lock Acq was acquired (mode AcqMode) while Held was held (mode HeldMode).
